@@ -132,8 +132,9 @@ def lookupAll (t : Table α) : List Char → Option (List (Residue α))
 def sumVol (parts : List (Residue α)) : α := parts.foldl (fun s p => s + p.vol) 0
 def sumCharge (parts : List (Residue α)) : α := parts.foldl (fun s p => s + p.charge) 0
 /-- `for p in parts: structure.extend(list(p.labile_formula.structure))` -/
-def joinStruct (parts : List (Residue α)) : Items α :=
-  parts.foldl (fun s p => s.append p.struct) .nil
+def joinStruct : List (Residue α) → Items α
+  | [] => .nil
+  | p :: r => p.struct.append (joinStruct r)
 
 /-- `Sequence(name, sequence, type)` given the code table of the type -/
 def sequence (am : Atom → α) (t : Table α) (s : List Char) : Option (Mol α) :=
